@@ -243,6 +243,10 @@ func TestVerifC08(t *testing.T) {
 	run := verifkit.Start(t, "C08")
 	defer run.Finish()
 	defer func(a, b int) { maxBlockSize, concurrentWriters = a, b }(maxBlockSize, concurrentWriters)
+	// one driving goroutine plus short-lived flush goroutines: two Ps give real
+	// parallelism between them without the scheduling overhead of 16 idle Ps
+	// in each of the parallel child processes
+	defer runtime.GOMAXPROCS(runtime.GOMAXPROCS(2))
 	runtime.GC()
 	r := &c08Runner{run: run, baseG: runtime.NumGoroutine()}
 
